@@ -7,10 +7,28 @@ def showMat (m : List (List Rat)) : String :=
   if m.isEmpty then "-" else ";".intercalate (m.map showRats)
 
 def handle : List String → Option String
-  | ["c07.berr", deg, d, lam, lam1, iasls, knots, xs, ys, ws, c] => do
-      let r := backwardErrorP (← deg.toNat?) (← d.toNat?) (← parseRat? lam) (← parseRat? lam1) (iasls == "1")
-        (← parseList? parseRat? knots) (← parseList? parseRat? xs) (← parseList? parseRat? ys) (← parseList? parseRat? ws) (← parseList? parseRat? c)
+  | ["c07.berr", kind, deg, d, lam, p1, knots, xs, ys, ws, aux, c] => do
+      let r := backwardErrorP (← deg.toNat?) (← d.toNat?) (← parseRat? lam) (← parseRat? p1) (← kind.toNat?)
+        (← parseList? parseRat? knots) (← parseList? parseRat? xs) (← parseList? parseRat? ys) (← parseList? parseRat? ws)
+        (← parseList? parseRat? aux) (← parseList? parseRat? c)
       some s!"{showRat r.1} {showRat r.2}"
+  | ["c07.berr2", degR, degC, dR, dC, lamR, lamC, knotsR, knotsC, xs, zs, Y, W, C] => do
+      let pm := fun (t : String) => (t.splitOn ";").mapM (parseList? parseRat?)
+      let r := backwardErrorP2 (← degR.toNat?) (← degC.toNat?) (← dR.toNat?) (← dC.toNat?) (← parseRat? lamR) (← parseRat? lamC)
+        (← parseList? parseRat? knotsR) (← parseList? parseRat? knotsC) (← parseList? parseRat? xs) (← parseList? parseRat? zs)
+        (← pm Y) (← pm W) (← pm C)
+      some s!"{showRat r.1} {showRat r.2}"
+  | ["c07.bc2", degR, degC, knotsR, knotsC, xs, zs, C] => do
+      let pm := fun (t : String) => (t.splitOn ";").mapM (parseList? parseRat?)
+      let degR ← degR.toNat?
+      let degC ← degC.toNat?
+      some (showMat (applyB2 degR degC (designRows (← parseList? parseRat? knotsR) degR (← parseList? parseRat? xs))
+        (designRows (← parseList? parseRat? knotsC) degC (← parseList? parseRat? zs)) (← pm C)))
+  | ["c07.mid", deg, knots] => do some (showRats (basisMidpoints (← parseList? parseRat? knots) (← deg.toNat?)))
+  | ["c07.interp", xs, vs, ts] => do
+      let xs ← parseList? parseRat? xs
+      let vs ← parseList? parseRat? vs
+      some (showRats ((← parseList? parseRat? ts).map (npInterp xs vs)))
   | ["c07.bc", deg, knots, xs, c] => do
       let deg ← deg.toNat?
       let knots ← parseList? parseRat? knots
